@@ -469,11 +469,17 @@ theorem runAlone_step' {fuel : Nat} {s s' : Shared} {its its' : Iters} {t t' : T
     runAlone (fuel + 1) s its t = runAlone fuel s' its' t' := by
   rw [runAlone_step _ _ _ _ hf hp, h]
 
-theorem step_register (s : Shared) (its : Iters) (tid k : Nat) (rest : List Instr)
+theorem step_register1 (s : Shared) (its : Iters) (tid k : Nat) (rest : List Instr)
     (hk : Key.temp k ∉ regKeys s.reg) :
     stepThread s its ⟨tid, .registerTemp k :: rest, .idle, none⟩ =
+      (s, its, ⟨tid, .registerTemp k :: rest, .registering false, none⟩) := by
+  simp [stepThread, applyAct, regLookup_of_not_mem _ _ hk]
+
+theorem step_register2 (s : Shared) (its : Iters) (tid k : Nat) (rest : List Instr)
+    (hk : Key.temp k ∉ regKeys s.reg) :
+    stepThread s its ⟨tid, .registerTemp k :: rest, .registering false, none⟩ =
       ({ s with reg := s.reg ++ [(.temp k, tid)], inserts := s.inserts + 1 }, its, ⟨tid, rest, .idle, none⟩) := by
-  simp [stepThread, registerAct, applyAct, regLookup_of_not_mem _ _ hk, regKeys_regSet_of_not_mem _ _ _ hk, hk]
+  simp [stepThread, applyAct, regKeys_regSet_of_not_mem _ _ _ hk, hk]
 
 theorem step_resolve1 (s : Shared) (its : Iters) (tid k : Nat) (rest : List Instr)
     (hk : Key.temp k ∈ regKeys s.reg) :
@@ -521,14 +527,15 @@ theorem runAlone_lockedProg (s : Shared) (its : Iters) (tid k : Nat) (hnt : NoTe
   have hdel : regDel (.temp k) (s.reg ++ [(.temp k, tid)]) = s.reg := regDel_append_self _ _ _ hk
   obtain ⟨its', hloop⟩ := hash_loop tid [] (s.inserts + 1) s.reg.length
     { s with inserts := s.inserts + 1 } (itersSet its ⟨tid, s.reg.length, 0, s.inserts + 1⟩) 0
-    (3 * s.reg.length + 8) (itersGet_itersSet its ⟨tid, s.reg.length, 0, s.inserts + 1⟩) (by simp)
+    (3 * s.reg.length + 7) (itersGet_itersSet its ⟨tid, s.reg.length, 0, s.inserts + 1⟩) (by simp)
   refine ⟨its', ?_⟩
   have hfuel : progFuel s.reg.length (lockedProg k) =
-      (s.reg.length + 1 + (3 * s.reg.length + 8)) + 1 + 1 + 1 + 1 + 1 + 1 + 1 := by
+      (s.reg.length + 1 + (3 * s.reg.length + 7)) + 1 + 1 + 1 + 1 + 1 + 1 + 1 + 1 := by
     simp [progFuel, lockedProg]; omega
   rw [hfuel]
   unfold Thread.mk' lockedProg
-  rw [runAlone_step' (step_register s its tid k _ hk) rfl (by simp)]
+  rw [runAlone_step' (step_register1 s its tid k _ hk) rfl (by simp)]
+  rw [runAlone_step' (step_register2 s its tid k _ hk) rfl (by simp)]
   rw [runAlone_step' (step_resolve1 _ its tid k _ hmem) rfl (by simp)]
   rw [runAlone_step' (step_resolve2 _ its tid k _ hmem) rfl (by simp)]
   rw [runAlone_step' (step_snapshot _ its tid _) rfl (by simp)]
@@ -550,7 +557,7 @@ theorem binv_init (n : Nat) (c : Bool) (temps : List Nat) : BInv n c (Sys.init n
   cache := rfl
   thr := by
     intro t ht
-    simp only [Sys.init, mem_map] at ht
+    simp only [Sys.init, Sys.initWith, mem_map] at ht
     obtain ⟨⟨p, i⟩, hpi, rfl⟩ := ht
     have hp : p ∈ temps.map lockedProg := by
       have := mem_zipIdx_iff_getElem?.1 hpi
@@ -676,7 +683,7 @@ theorem runBlocks_safe (nPlugins : Nat) (cacheSet : Bool) (temps : List Nat) (sc
 
 theorem init_threads_length (n : Nat) (c : Bool) (progs : List (List Instr)) :
     (Sys.init n c progs).threads.length = progs.length := by
-  simp [Sys.init]
+  simp [Sys.init, Sys.initWith]
 
 theorem runBlocks_allDone (nPlugins : Nat) (cacheSet : Bool) (temps : List Nat) (schedule : List Nat)
     (hall : ∀ i, i < temps.length → i ∈ schedule) :
@@ -689,5 +696,209 @@ theorem runBlocks_allDone (nPlugins : Nat) (cacheSet : Bool) (temps : List Nat) 
   have hi' : i < temps.length := by
     rw [hlen, init_threads_length] at hi; simpa using hi
   exact hs i (hall i hi') t (by rw [getElem?_eq_getElem hi, hget])
+
+/-! ## workers that only read the shared state -/
+
+theorem itersGet_id {its : Iters} {a : Nat} {i : Iter} (h : itersGet its a = some i) : i.id = a := by
+  have := find?_some h
+  simpa using this
+
+theorem itersGet_itersDrop_ne (its : Iters) {a b : Nat} (h : b ≠ a) : itersGet (itersDrop its a) b = itersGet its b := by
+  induction its with
+  | nil => rfl
+  | cons x l ih =>
+    unfold itersGet itersDrop at ih ⊢
+    by_cases hx : x.id = a
+    · have hab : (a == b) = false := by simpa using fun e : a = b => h e.symm
+      simp only [filter_cons, hx, bne_self_eq_false, Bool.false_eq_true, if_false, find?_cons, hab]
+      exact ih
+    · have : (x.id != a) = true := by simpa using hx
+      simp only [filter_cons, this, if_true, find?_cons]
+      cases hb : (x.id == b) with
+      | true => rfl
+      | false => exact ih
+
+theorem itersGet_itersSet_ne (its : Iters) (i : Iter) {b : Nat} (h : b ≠ i.id) :
+    itersGet (itersSet its i) b = itersGet its b := by
+  have hib : (i.id == b) = false := by simpa using fun e : i.id = b => h e.symm
+  have := itersGet_itersDrop_ne its h
+  unfold itersGet at this ⊢
+  unfold itersSet
+  simp only [find?_cons, hib]
+  exact this
+
+/-- where a read-only worker can be inside an instruction, and what its iterator looks like -/
+def MicroOK (s : Shared) (its : Iters) (t : Thread) : Prop :=
+  match t.micro with
+  | .idle => True
+  | .hashing => ∃ it, itersGet its t.tid = some it ∧ it.size = s.reg.length
+  | .deleting todo => todo = []
+  | .innerHashing d => ∃ l it, s.inner[d]? = some l ∧ itersGet its t.tid = some it ∧ it.size = l.length
+  | _ => False
+
+theorem step_readonly (s : Shared) (its : Iters) (t : Thread) (hnt : NoTemp s.reg) (hc : s.cacheSet = true)
+    (hf : t.failed = none) (hro : ∀ ins ∈ t.prog, ins.readOnly s.inner = true) (hm : MicroOK s its t) :
+    ∃ its' t', stepThread s its t = (s, its', t') ∧ t'.tid = t.tid ∧ t'.failed = none ∧
+      (∀ ins ∈ t'.prog, ins.readOnly s.inner = true) ∧ MicroOK s its' t' ∧
+      (∀ b, b ≠ t.tid → itersGet its' b = itersGet its b) := by
+  obtain ⟨tid, prog, micro, failed⟩ := t
+  simp only at hf hro
+  subst hf
+  cases prog with
+  | nil => exact ⟨its, _, by simp [stepThread], rfl, rfl, hro, hm, fun _ _ => rfl⟩
+  | cons ins rest =>
+    have hrest : ∀ i ∈ rest, i.readOnly s.inner = true := fun i hi => hro i (mem_cons_of_mem _ hi)
+    have hins := hro ins mem_cons_self
+    cases micro with
+    | idle =>
+      cases ins with
+      | contextHash =>
+        refine ⟨itersSet its ⟨tid, s.reg.length, 0, s.inserts⟩, ⟨tid, .contextHash :: rest, .hashing, none⟩,
+          by simp [stepThread, applyAct], rfl, rfl, hro, ?_, ?_⟩
+        · exact ⟨_, itersGet_itersSet its ⟨tid, s.reg.length, 0, s.inserts⟩, rfl⟩
+        · intro b hb; exact itersGet_itersSet_ne its _ hb
+      | cacheTest => exact ⟨its, ⟨tid, rest, .idle, none⟩, by simp [stepThread], rfl, rfl, hrest, trivial, fun _ _ => rfl⟩
+      | cacheUse =>
+        exact ⟨its, ⟨tid, rest, .idle, none⟩, by simp [stepThread, applyAct, hc], rfl, rfl, hrest, trivial, fun _ _ => rfl⟩
+      | tryLookupTemp k => exact ⟨its, ⟨tid, rest, .idle, none⟩, by simp [stepThread], rfl, rfl, hrest, trivial, fun _ _ => rfl⟩
+      | deleteAllTemp =>
+        refine ⟨its, ⟨tid, .deleteAllTemp :: rest, .deleting [], none⟩, ?_, rfl, rfl, hro, rfl, fun _ _ => rfl⟩
+        simp [stepThread, applyAct, filter_isTemp_noTemp hnt]
+      | innerIter d =>
+        have hd : d < s.inner.length := by simpa [Instr.readOnly] using hins
+        obtain ⟨l, hl⟩ : ∃ l, s.inner[d]? = some l := ⟨_, getElem?_eq_getElem hd⟩
+        refine ⟨itersSet its ⟨tid, l.length, 0, 0⟩, ⟨tid, .innerIter d :: rest, .innerHashing d, none⟩,
+          by simp [stepThread, hl], rfl, rfl, hro, ?_, ?_⟩
+        · exact ⟨l, _, hl, itersGet_itersSet its ⟨tid, l.length, 0, 0⟩, rfl⟩
+        · intro b hb; exact itersGet_itersSet_ne its _ hb
+      | innerGet d key =>
+        cases hl : s.inner[d]? with
+        | none => simp [Instr.readOnly, hl] at hins
+        | some l =>
+          have hk : key ∈ l := by simpa [Instr.readOnly, hl] using hins
+          exact ⟨its, ⟨tid, rest, .idle, none⟩, by simp [stepThread, hl, hk], rfl, rfl, hrest, trivial, fun _ _ => rfl⟩
+      | registerTemp k => simp [Instr.readOnly] at hins
+      | resolve k => simp [Instr.readOnly] at hins
+      | cacheLookup => simp [Instr.readOnly] at hins
+      | lookupTemp k => simp [Instr.readOnly] at hins
+      | cacheInit => simp [Instr.readOnly] at hins
+      | innerSet d key => simp [Instr.readOnly] at hins
+    | hashing =>
+      obtain ⟨it, hget, hsz⟩ := hm
+      have hid : it.id = tid := itersGet_id hget
+      cases hk : (regKeys s.reg)[it.pos]? with
+      | some k =>
+        refine ⟨itersSet its { it with pos := it.pos + 1 }, ⟨tid, ins :: rest, .hashing, none⟩, ?_, rfl, rfl, hro, ?_, ?_⟩
+        · simp [stepThread, applyAct, hget, hsz, hk]
+        · refine ⟨{ it with pos := it.pos + 1 }, ?_, hsz⟩
+          have := itersGet_itersSet its { it with pos := it.pos + 1 }
+          simpa [hid] using this
+        · intro b hb; exact itersGet_itersSet_ne its _ (by simpa [hid] using hb)
+      | none =>
+        refine ⟨itersDrop its tid, ⟨tid, rest, .idle, none⟩, ?_, rfl, rfl, hrest, trivial, ?_⟩
+        · simp [stepThread, applyAct, hget, hsz, hk]
+        · intro b hb; exact itersGet_itersDrop_ne its hb
+    | deleting todo =>
+      have : todo = [] := hm
+      subst this
+      exact ⟨its, ⟨tid, rest, .idle, none⟩, by simp [stepThread], rfl, rfl, hrest, trivial, fun _ _ => rfl⟩
+    | innerHashing d =>
+      obtain ⟨l, it, hl, hget, hsz⟩ := hm
+      have hid : it.id = tid := itersGet_id hget
+      by_cases hpos : it.pos < l.length
+      · refine ⟨itersSet its { it with pos := it.pos + 1 }, ⟨tid, ins :: rest, .innerHashing d, none⟩, ?_, rfl, rfl, hro, ?_, ?_⟩
+        · simp [stepThread, hl, hget, hsz, hpos]
+        · refine ⟨l, { it with pos := it.pos + 1 }, hl, ?_, hsz⟩
+          have := itersGet_itersSet its { it with pos := it.pos + 1 }
+          simpa [hid] using this
+        · intro b hb; exact itersGet_itersSet_ne its _ (by simpa [hid] using hb)
+      · refine ⟨itersDrop its tid, ⟨tid, rest, .idle, none⟩, ?_, rfl, rfl, hrest, trivial, ?_⟩
+        · simp [stepThread, hl, hget, hsz, hpos]
+        · intro b hb; exact itersGet_itersDrop_ne its hb
+    | resolving k => exact absurd hm (by simp [MicroOK])
+    | cacheChecked => exact absurd hm (by simp [MicroOK])
+    | registering r => exact absurd hm (by simp [MicroOK])
+
+/-- invariant of a system of read-only workers -/
+structure RInv (s0 : Shared) (sys : Sys) : Prop where
+  shared : sys.shared = s0
+  thr : ∀ (i : Nat) (t : Thread), sys.threads[i]? = some t →
+    t.tid = i ∧ t.failed = none ∧ (∀ ins ∈ t.prog, ins.readOnly s0.inner = true) ∧ MicroOK s0 sys.iters t
+
+theorem microOK_congr {s : Shared} {its its' : Iters} {t : Thread}
+    (h : itersGet its' t.tid = itersGet its t.tid) (hm : MicroOK s its t) : MicroOK s its' t := by
+  unfold MicroOK at hm ⊢
+  split <;> simp_all
+
+theorem rinv_step (s0 : Shared) (hnt : NoTemp s0.reg) (hc : s0.cacheSet = true) (sys : Sys) (inv : RInv s0 sys)
+    (a : Nat) : RInv s0 (sys.step a) := by
+  unfold Sys.step
+  cases h : sys.threads[a]? with
+  | none => exact inv
+  | some t =>
+    obtain ⟨htid, hf, hro, hm⟩ := inv.thr a t h
+    have hs := inv.shared
+    obtain ⟨its', t', hstep, htid', hf', hro', hm', hother⟩ :=
+      step_readonly s0 sys.iters t hnt hc hf hro hm
+    have ha : a < sys.threads.length := (List.getElem?_eq_some_iff.1 h).1
+    simp only [hs, hstep]
+    refine ⟨rfl, ?_⟩
+    intro i ti hi
+    by_cases hia : a = i
+    · subst hia
+      simp only [getElem?_set_self ha, Option.some.injEq] at hi
+      subst hi
+      exact ⟨htid'.trans htid, hf', hro', hm'⟩
+    · simp only [getElem?_set_ne hia] at hi
+      obtain ⟨h1, h2, h3, h4⟩ := inv.thr i ti hi
+      refine ⟨h1, h2, h3, microOK_congr ?_ h4⟩
+      apply hother
+      rw [h1, htid]
+      exact fun e => hia e.symm
+
+theorem rinv_run (s0 : Shared) (hnt : NoTemp s0.reg) (hc : s0.cacheSet = true) :
+    ∀ (schedule : List Nat) (sys : Sys), RInv s0 sys → RInv s0 (sys.run schedule) := by
+  intro schedule
+  induction schedule with
+  | nil => intro sys inv; exact inv
+  | cons a rest ih => intro sys inv; exact ih _ (rinv_step s0 hnt hc sys inv a)
+
+theorem rinv_init (n : Nat) (inner : List (List Key)) (progs : List (List Instr))
+    (h : ∀ p ∈ progs, ∀ i ∈ p, i.readOnly inner = true) :
+    RInv (Sys.initWith n true inner progs).shared (Sys.initWith n true inner progs) where
+  shared := rfl
+  thr := by
+    intro i t hi
+    simp only [Sys.initWith, getElem?_map] at hi
+    cases hz : progs.zipIdx[i]? with
+    | none => simp [hz] at hi
+    | some pi =>
+      simp only [hz, Option.map_some, Option.some.injEq] at hi
+      subst hi
+      obtain ⟨p, j⟩ := pi
+      have hmem : (p, j) ∈ progs.zipIdx := mem_of_getElem? hz
+      have hp : progs[j]? = some p := mem_zipIdx_iff_getElem?.1 hmem
+      have hji : j = i := by
+        have := getElem?_zipIdx (l := progs) (i := 0) (j := i)
+        rw [hz] at this
+        cases hpi : progs[i]? with
+        | none => simp [hpi] at this
+        | some q => simp [hpi] at this; omega
+      subst hji
+      exact ⟨rfl, rfl, fun ins hins => h p (mem_of_getElem? hp) ins hins, trivial⟩
+
+theorem readonly_safe (n : Nat) (inner : List (List Key)) (progs : List (List Instr)) (schedule : List Nat)
+    (h : ∀ p ∈ progs, ∀ i ∈ p, i.readOnly inner = true) :
+    ((Sys.initWith n true inner progs).run schedule).failures = [] ∧
+    ((Sys.initWith n true inner progs).run schedule).shared = (Sys.initWith n true inner progs).shared := by
+  have inv := rinv_run (Sys.initWith n true inner progs).shared (baseRegistry_noTemp n) rfl schedule _
+    (rinv_init n inner progs h)
+  refine ⟨?_, inv.shared⟩
+  unfold Sys.failures
+  apply filterMap_eq_nil_iff.2
+  intro t ht
+  obtain ⟨i, hi, hget⟩ := getElem_of_mem ht
+  have := (inv.thr i t (by rw [getElem?_eq_getElem hi, hget])).2.1
+  simp [this]
 
 end Strax.MultiRun
